@@ -45,6 +45,9 @@ type sfEv struct {
 	Ct      int      `json:"ct"`
 	Ver     int      `json:"ver"`  // snapshot format version of the file (part "file")
 	Zero    bool     `json:"zero"` // crafted payload: one flipped bit makes its CRC32 the all-zero value
+	OneWrite bool    `json:"onewrite"` // sessions and payload handed to the writer in a single Write call
+	BufKept  bool    `json:"bufkept"`  // the caller's buffer is unchanged after the write
+	ShrunkBefore bool `json:"shrunkbefore"` // IsShrunkSnapshotFile on the freshly written file
 	Size    int      `json:"size"`
 	Hsz     int      `json:"hsz"`
 	Blocks  []int    `json:"blocks"`
@@ -60,6 +63,7 @@ type sfEv struct {
 
 type sfSim struct {
 	tailAll bool
+	oneWrite bool
 	rng  *rand.Rand
 	out  *bufio.Writer
 	tid  int
@@ -354,8 +358,19 @@ func (s *sfSim) fileV(ver SSVersion, n int, ct pb.CompressionType, zero bool) {
 	}
 	cw := dio.NewCountedWriter(w)
 	sw := dio.NewCompressor(ct, cw)
-	s.segWrite(sw, sess)
-	s.segWrite(sw, payload)
+	bufKept := true
+	if s.oneWrite {
+		// one Write call that spans several blocks (the writer may not keep or modify the caller's slice)
+		buf := append(append([]byte{}, sess...), payload...)
+		keep := append([]byte{}, buf...)
+		if _, err := sw.Write(buf); err != nil {
+			panic(err)
+		}
+		bufKept = bytes.Equal(buf, keep)
+	} else {
+		s.segWrite(sw, sess)
+		s.segWrite(sw, payload)
+	}
 	if err := sw.Close(); err != nil {
 		panic(err)
 	}
@@ -363,7 +378,14 @@ func (s *sfSim) fileV(ver SSVersion, n int, ct pb.CompressionType, zero bool) {
 	f, _ := fs.Open(fp)
 	data, _ := io.ReadAll(f)
 	f.Close()
-	ev := sfEv{Op: "File", Ver: int(ver), Zero: zero, N: n, Ct: int(ct), Size: len(data), Hsz: int(binary.LittleEndian.Uint64(data)), Rec: rec, ReadOK: true, VOK: true}
+	shrunkBefore := false
+	if ver == V2 {
+		func() {
+			defer func() { _ = recover() }()
+			shrunkBefore, _ = IsShrunkSnapshotFile(fp, fs)
+		}()
+	}
+	ev := sfEv{Op: "File", Ver: int(ver), Zero: zero, OneWrite: s.oneWrite, BufKept: bufKept, ShrunkBefore: shrunkBefore, N: n, Ct: int(ct), Size: len(data), Hsz: int(binary.LittleEndian.Uint64(data)), Rec: rec, ReadOK: true, VOK: true}
 	for _, bufsz := range []int{1 + s.rng.Intn(7), 4096, 1 + s.rng.Intn(3*1024*1024)} {
 		gs, gp, failed := s.loadFile(fs, fp, bufsz)
 		if failed || !bytes.Equal(gs, sess) || !bytes.Equal(gp, payload) {
@@ -551,12 +573,22 @@ func TestVerifSfsim(t *testing.T) {
 			if big > 0 {
 				sizes = append(sizes, []int{bs - 17, bs - 16, bs - 15, 2*bs + 5 - 16}[tid%4])
 			}
+			sizes = append(sizes, 2+tid%6) // tiny payloads: shorter than every fixed-size field of the format
 			for _, n := range sizes {
 				for _, ct := range []pb.CompressionType{pb.NoCompression, pb.Snappy} {
 					s.file(n, ct)
 					cnt["File"]++
 				}
 			}
+			// the whole stream in one Write call (several blocks when VERIF_BIG)
+			s.oneWrite = true
+			s.file(100+s.rng.Intn(5000), pb.NoCompression)
+			cnt["File"]++
+			if big > 0 {
+				s.file(2*bs+1+s.rng.Intn(bs), []pb.CompressionType{pb.NoCompression, pb.Snappy}[tid%2])
+				cnt["File"]++
+			}
+			s.oneWrite = false
 			// stored sizes of the form 2^k (payload + block checksum) or blocks + 2^k: one flipped
 			// bit of the recorded total then names another block boundary (or nothing at all)
 			ls := len(GetEmptyLRUSession())
